@@ -1,9 +1,12 @@
 #!/bin/sh
-# usage: tools/try_mutant.sh <patch.diff> <prop>...   applies the patch to /repo, runs the checks, reverts
+# usage: tools/try_mutant.sh <patch.diff> <prop>...   applies the patch to /repo, runs the checks, reverts.
+# The evidence directory is saved and restored: evidence of a mutated tree must never be committed.
 P=$1; shift
+rm -rf /tmp/evidence.save && cp -r /verif/evidence /tmp/evidence.save
 git -C /repo apply "$P" || { echo "patch does not apply"; exit 3; }
 for c in "$@"; do
   /verif/check $c > /tmp/mut_$c.out 2>&1; rc=$?
-  echo "== $c exit=$rc"; grep -E "^(VIOLATION|INCONCLUSIVE|KNOWN|OK|failed obligation)" /tmp/mut_$c.out | head -6
+  echo "== $c exit=$rc"; grep -E "^(VIOLATION|INCONCLUSIVE|KNOWN|OK|failed obligation)" /tmp/mut_$c.out | cut -c1-260 | head -6
 done
 git -C /repo checkout -- .
+rm -rf /verif/evidence && mv /tmp/evidence.save /verif/evidence
